@@ -23,9 +23,29 @@ pub struct G<'a> {
     /// may produce values that serialize but are not valid (e.g. points
     /// outside the prime-order subgroup)
     pub invalid_ok: bool,
+    /// produce a sequence just around the 1 MiB reservation cap of the deserializers
+    /// (used once, by the outermost sequence)
+    pub huge: bool,
 }
 
 impl G<'_> {
+    /// length for a sequence of elements of `elem` bytes each
+    pub fn len_for(&mut self, elem: usize) -> usize {
+        if self.huge {
+            self.huge = false;
+            let cap = (1usize << 20) / elem.max(1);
+            let n = match self.rng.below(6) {
+                0 => cap - 1,
+                1 => cap,
+                2 | 3 => cap + 1,
+                4 => cap + self.rng.range(2, 9),
+                _ => cap + cap / 5,
+            };
+            self.budget = 0;
+            return n;
+        }
+        self.len()
+    }
     pub fn len(&mut self) -> usize {
         if self.simple || self.budget == 0 {
             return 0;
@@ -194,8 +214,9 @@ impl Sem for String {
     // accepted invalid UTF-8 would have to be replaced or dropped, hence re-encode differently
     const CANONICAL: bool = true;
     fn gen(g: &mut G<'_>) -> Self {
-        let n = g.len();
-        let ascii = g.rng.chance(1, 2);
+        let huge = g.huge;
+        let n = g.len_for(1);
+        let ascii = huge || g.rng.chance(1, 2);
         let pool = ['a', 'Z', '0', ' ', '\0', '\u{7f}', 'é', 'ß', '漢', '🦀', '\u{10FFFF}', '\u{80}', '\u{7ff}', '\u{800}'];
         (0..n)
             .map(|_| if ascii { (b' ' + g.rng.below(95) as u8) as char } else { *g.rng.pick(&pool) })
@@ -313,7 +334,7 @@ macro_rules! sem_seq {
         impl<T: Sem + CanonicalSerialize + CanonicalDeserialize> Sem for $c<T> {
             const CANONICAL: bool = T::CANONICAL;
             fn gen(g: &mut G<'_>) -> Self {
-                let n = g.len();
+                let n = g.len_for(std::mem::size_of::<T>());
                 (0..n).map(|_| T::gen(g)).collect()
             }
             fn same(&self, o: &Self) -> bool {
@@ -335,7 +356,7 @@ sem_seq!(LinkedList);
 impl<T: Sem + CanonicalSerialize + CanonicalDeserialize> Sem for VecDeque<T> {
     const CANONICAL: bool = T::CANONICAL;
     fn gen(g: &mut G<'_>) -> Self {
-        let n = g.len();
+        let n = g.len_for(std::mem::size_of::<T>());
         match g.rng.below(4) {
             0 => (0..n).map(|_| T::gen(g)).collect(),
             1 => {
